@@ -742,7 +742,8 @@ def numpy_table(np_mod):
     """public name -> kind, from the installed NumPy (runtime facts)"""
     out = []
     sources = [("", np_mod, list(np_mod.__all__)), ("linalg", np_mod.linalg, list(np_mod.linalg.__all__)),
-               ("fft", np_mod.fft, list(np_mod.fft.__all__))]
+               ("fft", np_mod.fft, list(np_mod.fft.__all__)), ("emath", np_mod.emath, list(np_mod.emath.__all__)),
+               ("ma", np_mod.ma, list(np_mod.ma.__all__)), ("char", np_mod.char, list(np_mod.char.__all__))]
     for prefix, mod, names in sources:
         for name in sorted(set(names)):
             obj = getattr(mod, name, None)
@@ -1106,7 +1107,9 @@ def generate(repo):
             "op_classes": len(T["op_classes"]), "af_steps": T["af_steps"],
             "ufunc_branches": au["branches"], "table_digest": hashlib.sha256(text.encode()).hexdigest()[:16]},
     }
-    return {"S_dispatch.v": text}, report
+    # the same tables as Python data: the campaign falls back to the COMMITTED copy of this file when the
+    # extraction from a modified tree fails closed (it then searches a failing input with the reference tables)
+    return {"S_dispatch.v": text, "S_dispatch_tables.txt": repr(T) + "\n"}, report
 
 
 if __name__ == "__main__":
